@@ -42,7 +42,12 @@ Flows == <<
   \*   node missing), a step referring to its own postprocessor (not set yet while it renders)
   [a |-> RDef(NoPre, Use("post", "a", "hdr"), "hdr", FALSE),
    b |-> RDef(NoPre, Use("post", "c", "body"), "none", TRUE),
-   c |-> RDef(PreM("last", "items"), Use("pre", "a", "hdr"), "none", FALSE)]
+   c |-> RDef(PreM("last", "items"), Use("pre", "a", "hdr"), "none", FALSE)],
+  \* 8 headers that happen to be called "url" and "body" are headers like any other ("hbody": the request also has
+  \*   a literal body, which must arrive unchanged)
+  [a |-> RDef(PreM("next", "users"), Use("pre", "a", "hurl"), "json", FALSE),
+   b |-> RDef(NoPre, Use("post", "a", "hbody"), "none", TRUE),
+   c |-> RDef(PreM("last", "items"), Use("pre", "c", "hbody"), "none", FALSE)]
 >>
 
 NameSeqs == << <<"a">>, <<"a", "b">>, <<"b", "a">>, <<"a", "a">>, <<"a", "b", "c">>, <<"a", "b", "a">>, <<"c", "b", "a">> >>
